@@ -371,13 +371,6 @@ func runC19(c *Case, out func(string)) {
 		}
 		oracleOK = false
 	}
-	kfs := map[string]bool{}
-	kf := func(class string) {
-		if !kfs[class] {
-			out("KF " + class)
-		}
-		kfs[class] = true
-	}
 	codesSeen := map[string]map[string]bool{}
 	noteCode := func(class string, code codes.Code) {
 		if codesSeen[class] == nil {
@@ -423,10 +416,6 @@ func runC19(c *Case, out func(string)) {
 		}
 		return v
 	}
-	// a request within the documented limits that the transport refuses
-	transportKF := func(req proto.Message) bool {
-		return proto.Size(req) > n.recvLimit && hdrVal(c.Hdr, "msg", "default") == "default" && n.recvLimit == c19GrpcDefault
-	}
 	errObs := func(err error) string {
 		cl, code := c19Class(err)
 		noteCode(cl, code)
@@ -455,9 +444,8 @@ func runC19(c *Case, out func(string)) {
 			return true
 		}
 		if strings.HasPrefix(got, "R err:") || got == "R blocked" {
-			if got == "R err:msg" && transportKF(req) {
-				fail(fmt.Sprintf("%s: within the documented limits (%d bytes on the wire) but refused by the transport: the server is built without grpc.MaxRecvMsgSize, so requests over %d bytes never reach the service", what, proto.Size(req), n.recvLimit))
-				kf("transport_limit_below_documented")
+			if got == "R err:msg" {
+				fail(fmt.Sprintf("%s: within the documented limits (%d bytes on the wire) but refused by the transport (receive limit of the server: %d bytes)", what, proto.Size(req), n.recvLimit))
 			} else {
 				fail(fmt.Sprintf("%s: the embedded operation is admissible but the service answered %q", what, got))
 			}
@@ -1025,21 +1013,16 @@ func runC19(c *Case, out func(string)) {
 			if judge("Compact", got, nil, req) {
 				break
 			}
-			// embedded counterpart: maintenance never changes the data. Compare the content now.
+			// embedded counterpart: a flush of the memtables (force) or nothing; maintenance never changes the data
+			if force {
+				if err2 := n.e2.FlushImMemTables(); err2 != nil {
+					fail("Compact: embedded flush " + err2.Error())
+				}
+			}
 			a, _ := c19Content(n.e)
 			b, _ := c19Content(n.e2)
 			if !rowsEqual(a, b) {
 				fail(fmt.Sprintf("Compact(force=%v) changed the data: the server's engine now holds %s, the same operations through the embedded API leave %s", force, rowsStr(a), rowsStr(b)))
-				if force {
-					kf("compact_marker_key")
-					// keep the rest of the case meaningful: the twin and the reference follow
-					for _, r := range a {
-						if string(r.k) == "__compact_marker__" {
-							n.e2.Put(r.k, r.v)
-							ref[string(r.k)] = r.v
-						}
-					}
-				}
 			}
 		case "info":
 			ctx, cancel := ctxFor(false)
@@ -1377,10 +1360,24 @@ func genC19(w *bufio.Writer, seed int64, n int, tier string) {
 		if ci < 5 {
 			kind = ci
 		}
+		if tier == "thorough" && ci == 8 {
+			// the transport boundary itself: a 1-byte key and an n-byte value are n + 8 bytes on the wire;
+			// both sizes are over the value limit, only the error class tells which layer refused
+			lim := c19ServerRecvOption()
+			if lim == 0 {
+				lim = c19GrpcDefault
+			}
+			fmt.Fprintf(w, "case t%d-%d memsize=100000000 maxmem=1000 msg=default role=none\n", seed, ci)
+			g.line("put 6b @%d:1 0", lim-8)
+			g.line("put 6b @%d:2 0", lim-7)
+			g.line("get 6b")
+			fmt.Fprintln(w, "end")
+			continue
+		}
 		if tier == "thorough" && ci >= 5 && ci < 8 {
 			// values around the 10 MB limit through a transaction and a batch (the model holds a value
 			// as a list: a few such cases per run only)
-			fmt.Fprintf(w, "case v%d-%d memsize=100000000 maxmem=1000 msg=big role=none\n", seed, ci)
+			fmt.Fprintf(w, "case v%d-%d memsize=100000000 maxmem=1000 msg=default role=none\n", seed, ci)
 			sz := []int{c19DocMaxVal - 1, c19DocMaxVal, c19DocMaxVal + 1}[ci-5]
 			g.begin(false)
 			g.line("tput $0 6c @%d:%d", sz, r.Intn(100))
